@@ -29,6 +29,8 @@ type srvOpt struct {
 	AnswerAll   bool // no choice at all: answer in order (keeps the space small)
 	Mute        bool // never sends anything at all
 	CloseAfterAnswerOnly bool // closing only right after an answer (the connection goes stale, no query is dropped by the close itself)
+	SilentDeath bool // a server-side close is not signalled to the client (no FIN/RST until the next write): use with ResetOnWrite
+	CloseEveryAnswer bool // no choice: every answer is followed by a close while the budget lasts
 	ResetOnWrite bool // after the server closed, the client's next write fails (RST) instead of vanishing
 	BadLen      bool // may send a frame whose header announces more bytes than ever arrive
 }
@@ -47,6 +49,7 @@ type tOpt struct {
 	StartQid  uint16
 	SeedQueue int // pre-occupied wire IDs following StartQid (forces the skip loop)
 	WriteFailNth int // >0: the n-th client write over all connections fails
+	StageTwo  int  // the last StageTwo callers start only after all other callers have finished
 	RewindQid bool // tdc kinds: every call first rewinds the wire-ID counter to StartQid (a reachable state after 65536 allocations): IDs of queries still in flight must be skipped
 	Withdraw  bool // tdc kinds: a caller may reserve and withdraw instead of exchanging
 	IdleTimeout time.Duration
@@ -282,7 +285,14 @@ func (s *tsys) serve(cn *tConn) {
 				acts = append(acts, act{"badlen", 0})
 			}
 		}
-		a := acts[vs.Choose(len(acts))]
+		var a act
+		if so.CloseEveryAnswer && s.closeLeft > 0 {
+			a = act{"answer+close", 0}
+		} else if so.CloseEveryAnswer {
+			a = act{"answer", 0}
+		} else {
+			a = acts[vs.Choose(len(acts))]
+		}
 		cn.actLog += fmt.Sprintf("%c%d", a.kind[0], a.i)
 		if a.kind == "answer+close" {
 			cn.actLog += "c"
@@ -341,6 +351,9 @@ func (s *tsys) srvClose(cn *tConn) {
 	s.closeLeft--
 	cn.closedBySrv = true
 	cn.pending = nil
+	if s.opt.Srv.SilentDeath {
+		return
+	}
 	if s.opt.Srv.ResetOnly {
 		cn.b.InjectPeerReadErr(fk.ErrInjected, false)
 	} else {
@@ -416,12 +429,19 @@ func (s *tsys) run() {
 	default:
 		panic("bad kind " + o.Kind)
 	}
-	var wg vs.WaitGroup
+	var wg, stage1 vs.WaitGroup
+	stage1.Add(o.Callers - o.StageTwo)
 	for ci := 0; ci < o.Callers; ci++ {
 		ci := ci
 		wg.Add(1)
 		vs.GoNamed(fmt.Sprintf("caller%d", ci), func() {
 			defer wg.Done()
+			if ci >= o.Callers-o.StageTwo {
+				stage1.Wait()
+				vs.Sleep(time.Millisecond) // let the read loops digest what the server did
+			} else {
+				defer stage1.Done()
+			}
 			for k := 0; k < o.Seq; k++ {
 				s.doCall(ci, s.calls[ci*o.Seq+k])
 			}
